@@ -334,6 +334,11 @@ GEN_THEOREMS = {
 }
 GEN_THEOREMS_MORE = [
     ("C14", "CoreDhcp.Props.GenHandlers4", ["GEN_h4_serverid_eq"]),
+    # bitmap.go (the IPv6 prefix allocator), regenerated as a whole (unit alloc6)
+    ("C04", "CoreDhcp.Props.GenAlloc6", ["GEN_a6_allocate_eq", "GEN_a6_free_eq"]),
+    ("C05", "CoreDhcp.Props.GenAlloc6", ["GEN_a6_allocate_eq'", "GEN_a6_new_eq", "GEN_a6_new_outside_domain", "GEN_a6_new_other", "GEN_a6_toPrefix_eq"]),
+    ("C06", "CoreDhcp.Props.GenAlloc6", ["GEN_a6_free_eq", "GEN_a6_free_other", "GEN_a6_free_outside", "GEN_a6_contains_eq", "GEN_a6_contains_none", "GEN_a6_toIndex_eq", "GEN_a6_toIndex_none"]),
+    ("C07", "CoreDhcp.Props.GenAlloc6", ["GEN_a6_allocate_eq", "GEN_a6_contains_eq", "GEN_a6_toIndex_eq"]),
 ]
 for _p, (_m, _t) in GEN_THEOREMS.items():
     PROPS[_p]["theorems"] = PROPS[_p]["theorems"] + _t
